@@ -19,8 +19,9 @@ MCShapes == Curves({K3}, {2}, {TRUE}, Seed) \cup Curves({K2}, {3}, {FALSE}, Seed
 DepthOf(s) == IF PDim(s) = 1 THEN DepthCurve ELSE IF PDim(s) = 2 THEN DepthSurf ELSE DepthVol
 ViewsOf(s) == {"ctrlpts", "evalpts", "bbox"} \cup (IF s.rat THEN {"weights"} ELSE {}) \cup (IF PDim(s) = 2 THEN {"ctrlpts2d", "tess"} ELSE {})
 Q == R(1, 4)
-InsArg(s) == \* one insertion per direction
+InsArg(s) == \* one insertion per direction; for surfaces also u admissible together with v over the limit (u stays applied)
   {<<[e \in 1..PDim(s) |-> IF e = d THEN Q ELSE None], [e \in 1..PDim(s) |-> IF e = d THEN 1 ELSE 0]>> : d \in 1..PDim(s)}
+  \cup (IF PDim(s) = 2 THEN {<<<<Q, Q>>, <<1, s.deg[2] + 1>>>>} ELSE {})
 Vec(s) == LET d == CDim(s) - (IF s.rat THEN 1 ELSE 0) IN [k \in 1..d |-> RI(k)]
 \* at most two refining calls per history (their rational results grow; TLC integers are 32-bit)
 NumRefining == Cardinality({i \in 1..Len(hist) : hist[i].a \in {"insert", "refine"}})
